@@ -31,6 +31,15 @@ for d in sorted(glob.glob(V + "/seeded/*/meta.json")):
         res += " — " + v["note"][:300]
     rows.append("| %s | %s | %s | %s | %s |" % (i, m.get("property", i[:3]), m.get("summary", "")[:230].replace("|", "\\|").replace("\n", " "), m.get("needs", "")[:230].replace("|", "\\|").replace("\n", " "), res.replace("\n", " ")))
 seeded = "\n".join(rows)
+import collections as _c
+_st = _c.Counter()
+for d in sorted(glob.glob(V + "/seeded/*/meta.json")):
+    r = json.load(open(d)).get("verification_by_lead", {}).get("check_result", "?")
+    if r.startswith("caught"): _st["caught by the check as it stood"] += 1
+    elif "after strengthening" in r: _st["missed at first, caught in the quick tier at seeds 1-3 after the monitor was strengthened"] += 1
+    elif r.startswith("missed"): _st["missed (strengthening pending or not possible, see the row)"] += 1
+    else: _st["not counted (%s)" % r.split(";")[0]] += 1
+seedstats = "Totals over %d stored changes: " % sum(_st.values()) + "; ".join("%d %s" % (v, k) for k, v in _st.most_common()) + "."
 s = open(V + "/DESIGN.md").read()
 def put(s, tag, body):
     b, e = "<!-- BEGIN:%s -->" % tag, "<!-- END:%s -->" % tag
@@ -45,6 +54,6 @@ for pid in sorted(props):
     e = props[pid]
     parts = ", ".join("`%s:%s`%s" % (x["pkg"].replace("pkg/", ""), x["test"], " (-race in thorough)" if x.get("race_thorough") else (" (-race)" if x.get("race") else "")) for x in e["parts"])
     ab.append("**%s** (%s) — %s\n\n*Assumes / trusted base:* %s\n\n*Parts:* %s; notes: %s\n" % (pid, e.get("level", "exploration"), e.get("text", "").strip(), e.get("note", "").strip() or "–", parts, ("`notes/%s.md`" % pid) if os.path.exists(V + "/notes/%s.md" % pid) else "–"))
-s = put(s, "FINDINGS", findings); s = put(s, "SEEDED", seeded); s = put(s, "ASBUILT", "\n".join(ab))
+s = put(s, "FINDINGS", findings); s = put(s, "SEEDED", seeded); s = put(s, "SEEDSTATS", seedstats); s = put(s, "ASBUILT", "\n".join(ab))
 open(V + "/DESIGN.md", "w").write(s)
 print("findings rows", len(out) - 2, "seeded rows", len(rows) - 2)
